@@ -280,6 +280,18 @@ def extract_fn(relpath, qual, ann):
         if not st:
             raise Inconclusive(f"anchor lost: {qual} has no statements")
         ed.add(st[-1]["span"][0], st[-1]["span"][0], ann["tail"].rstrip() + "\n", "A1")
+    for prefix, ptext in (ann.get("before_stmt") or {}).items():
+        def _norm(x): return re.sub(r"\s+", " ", src[x["span"][0]:x["span"][1]].decode())
+        allst = list(it["stmts"]) + [x for b in it.get("blocks", []) for x in b["stmts"]]
+        seen, hits = set(), []
+        for x in allst:
+            key = tuple(x["span"])
+            if key in seen: continue
+            seen.add(key)
+            if _norm(x).startswith(prefix): hits.append(x)
+        if len(hits) != 1:
+            raise Inconclusive(f"anchor lost: statement starting with {prefix!r} found {len(hits)} times in {qual}")
+        ed.add(hits[0]["span"][0], hits[0]["span"][0], ptext.rstrip() + "\n", "A1")
     for k, ptext in (ann.get("loopheads") or {}).items():
         k = int(k)
         if k >= len(it["loops"]):
